@@ -242,6 +242,14 @@ class ScriptedPeer(PeerBase):
             keep.append(v)
             self.send(s, v[:k], 0, n, 1)
             return self.send(s, v[k:], d, n, 2)
+        if name == "fragthenfull":      # the first k bytes, then (0.1 T later) the WHOLE answer again: the request completes, the fragment was never used up
+            k = args[0] if args else self.header_len()
+            keep.append(v)
+            self.send(s, v[:k], 0, n, 1)
+            return self.send(s, v, (args[1] if len(args) > 1 else 0.1 * T), n, 2)
+        if name == "tailonly":          # only the bytes of the valid answer from offset k on (its head is lost): nothing valid was sent
+            k = args[0] if args else self.header_len()
+            return self.send(s, v[k:], 0, n, 1)
         if name == "frag1":
             k = args[0] if args else self.header_len()
             return self.send(s, v[:k], 0, n, 1)
